@@ -445,8 +445,58 @@ fn check_matrices(ctx: &Ctx, c: &mut Collector) {
     space!("DciP3Plus", encoding::DciP3Plus<encoding::P3Gamma>, R::DCI_P3_PLUS);
     space!("ProPhotoRgb", encoding::ProPhotoRgb, R::PROPHOTO);
     let _ = <encoding::Rec709 as RgbStandard>::Space::rgb_to_xyz_matrix();
+    // RGB spaces WITHOUT hard-coded matrices (tuple spaces (Primaries, WhitePoint) and tuple standards
+    // (Primaries, WhitePoint, TransferFn)): the conversion code derives the matrix at run time, in both
+    // directions. The real conversions Rgb -> Xyz and Xyz -> Rgb are executed on the basis vectors, white,
+    // black and two generic colours and compared with M(primaries, white point) of the reference.
+    macro_rules! custom {
+        ($name:literal, $std:ty, $wp:ty, $T:ty, $tol:expr, $spec:expr) => {{
+            use palette::convert::FromColorUnclamped;
+            let spec: R::RgbSpec = $spec;
+            let pts: [[f64; 3]; 7] = [[1.0, 0.0, 0.0], [0.0, 1.0, 0.0], [0.0, 0.0, 1.0], [1.0, 1.0, 1.0], [0.0, 0.0, 0.0], [0.25, 0.5, 0.75], [0.9, 0.1, 0.3]];
+            for p in pts {
+                n += 2;
+                let rgb = palette::rgb::Rgb::<$std, $T>::new(p[0] as $T, p[1] as $T, p[2] as $T);
+                let xyz = palette::Xyz::<$wp, $T>::from_color_unclamped(rgb);
+                let want = spec.to_xyz(p);
+                let got = [xyz.x as f64, xyz.y as f64, xyz.z as f64];
+                let d = (0..3).map(|i| (got[i] - want[i]).abs()).fold(0.0, f64::max);
+                if !(d <= $tol) {
+                    c.violation(&format!("C02/custom-space/{}<{}>/rgb->xyz", $name, stringify!($T)), d, || json!({"sub": "matrices", "space": $name, "float": stringify!($T), "input": p, "observed": got, "expected": want}));
+                }
+                // and back: from the reference XYZ of the colour
+                let x = palette::Xyz::<$wp, $T>::new(want[0] as $T, want[1] as $T, want[2] as $T);
+                let back = palette::rgb::Rgb::<$std, $T>::from_color_unclamped(x);
+                let gotb = [back.red as f64, back.green as f64, back.blue as f64];
+                let db = (0..3).map(|i| (gotb[i] - p[i]).abs()).fold(0.0, f64::max);
+                if !(db <= 4.0 * $tol) {
+                    c.violation(&format!("C02/custom-space/{}<{}>/xyz->rgb", $name, stringify!($T)), db, || json!({"sub": "matrices", "space": $name, "float": stringify!($T), "input": want, "observed": gotb, "expected": p}));
+                }
+            }
+        }};
+    }
+    macro_rules! custom_both {
+        ($name:literal, $std:ty, $wp:ty, $spec:expr) => {{
+            custom!($name, $std, $wp, f64, 1e-9, $spec);
+            custom!($name, $std, $wp, f32, 2e-6, $spec);
+        }};
+    }
+    {
+        use palette::encoding::Linear;
+        use palette::white_point::{D50, D65, E};
+        use pv::refmodel::cie::Wp;
+        use pv::refmodel::tf::Tf;
+        let sp = |name: &'static str, prim: [[f64; 2]; 3], wp: Wp, tf: Tf| R::RgbSpec { name, prim, wp, tf };
+        custom_both!("Linear<(Srgb,D50)>", Linear<(encoding::Srgb, D50)>, D50, sp("Linear<(Srgb,D50)>", R::SRGB.prim, Wp::D50, Tf::Linear));
+        custom_both!("Linear<(Rec2020,D50)>", Linear<(encoding::Rec2020, D50)>, D50, sp("Linear<(Rec2020,D50)>", R::REC2020.prim, Wp::D50, Tf::Linear));
+        custom_both!("Linear<(AdobeRgb,E)>", Linear<(encoding::AdobeRgb, E)>, E, sp("Linear<(AdobeRgb,E)>", R::ADOBE.prim, Wp::E, Tf::Linear));
+        custom_both!("Linear<(ProPhotoRgb,D65)>", Linear<(encoding::ProPhotoRgb, D65)>, D65, sp("Linear<(ProPhotoRgb,D65)>", R::PROPHOTO.prim, Wp::D65, Tf::Linear));
+        custom_both!("(Srgb,D65,Srgb)", (encoding::Srgb, D65, encoding::Srgb), D65, sp("(Srgb,D65,Srgb)", R::SRGB.prim, Wp::D65, Tf::Srgb));
+        custom_both!("(DisplayP3,D50,Srgb)", (encoding::DisplayP3, D50, encoding::Srgb), D50, sp("(DisplayP3,D50,Srgb)", R::DISPLAY_P3.prim, Wp::D50, Tf::Srgb));
+        custom_both!("((Srgb,D50),Linear)", ((encoding::Srgb, D50), palette::encoding::linear::LinearFn), D50, sp("((Srgb,D50),Linear)", R::SRGB.prim, Wp::D50, Tf::Linear));
+    }
     c.add(sub, n, n, n, n);
-    c.exhaustive(sub, true, "7 RGB spaces: primaries, white point, hard-coded rgb->xyz and xyz->rgb matrices (all 9 entries each), matrix derived by palette from the primaries");
+    c.exhaustive(sub, true, "7 RGB spaces: primaries, white point, hard-coded rgb->xyz and xyz->rgb matrices (all 9 entries each), matrix derived by palette from the primaries; 7 tuple RGB spaces / standards without hard-coded matrices (primaries x white point x transfer function mixes, f32 and f64): the real Rgb -> Xyz and Xyz -> Rgb conversions on basis vectors, white, black and generic colours against M(primaries, white point)");
 }
 
 // ---------------------------------------------------------------------------------------
